@@ -2,6 +2,8 @@ package json
 
 import (
 	"encoding/json"
+	"math"
+	"strconv"
 
 	"github.com/rqlite/rqlite/v10/command/proto"
 )
@@ -50,7 +52,13 @@ func MarshalToEnvelopeJSON(serviceID, nodeID string, ts bool, evs []*proto.CDCIn
 		}
 		switch v.GetValue().(type) {
 		case *proto.CDCValue_D:
-			return v.GetD()
+			d := v.GetD()
+			if math.IsInf(d, 0) || math.IsNaN(d) {
+				// JSON has no number for these, and a value that cannot be
+				// marshalled would fail the whole batch: send the text form.
+				return strconv.FormatFloat(d, 'g', -1, 64)
+			}
+			return d
 		case *proto.CDCValue_I:
 			return v.GetI()
 		case *proto.CDCValue_S:
